@@ -17,12 +17,14 @@ func init() {
 			ID: "C27", Title: "A monitored router cannot crash or exhaust the BMP receiver", Level: "other",
 			Technique:   "panic-capable-operation enumeration with structural discharge (R-PCO), allocation-size and loop-form checks (R-TAINT) over everything statically reachable from the BMP framing, the BMP decoder and the router's message dispatch; nil-capability check for the BMP pseudo sessions",
 			DesignRef:   "DESIGN.md §4 C27",
-			Decided:     "(0) address family lookups keyed by values from a BMP message (peer.addressFamily in configureBySentOpen) are nil-tested before use; for every function reachable from recvBMPMsg, bmp/packet.Decode and Router.processMsg inside protocols/bmp/packet, util/decode and the BMP part of protocols/bgp/server: (1) every explicit index, slice, unchecked type assertion, division and panic() is discharged by a dominating guard; (2) every make() size derived from the wire is bounded by a constant, a ≤16-bit type or the bytes already received; (3) every loop makes progress; (4) no method of the session connection is called on a BMP pseudo session (which has none) — every use of FSM.con / update sender / Adj-RIB-Out reachable from the route-monitoring path is behind a guard that excludes BMP sessions; (5) the locks taken while a message is processed are released on every exit (C25 rule (a) over the BMP functions).",
+			Decided:     "(00) no string is grown by concatenation inside an input-driven loop of the decoding/processing functions (quadratic cost); (0) address family lookups keyed by values from a BMP message (peer.addressFamily in configureBySentOpen) are nil-tested before use; for every function reachable from recvBMPMsg, bmp/packet.Decode and Router.processMsg inside protocols/bmp/packet, util/decode and the BMP part of protocols/bgp/server: (1) every explicit index, slice, unchecked type assertion, division and panic() is discharged by a dominating guard; (2) every make() size derived from the wire is bounded by a constant, a ≤16-bit type or the bytes already received; (3) every loop makes progress; (4) no method of the session connection is called on a BMP pseudo session (which has none) — every use of FSM.con / update sender / Adj-RIB-Out reachable from the route-monitoring path is behind a guard that excludes BMP sessions; (5) the locks taken while a message is processed are released on every exit (C25 rule (a) over the BMP functions).",
 			NotDecided:  "memory held by well-formed but very large route tables; nil dereferences of values the decoder itself built; library code.",
 			TrustedBase: append([]string{"bytes.Buffer / encoding/binary / io.ReadFull return an error at end of input"}, stdTrusted...),
 		},
 		Run: runC27,
 		Controls: []Control{
+			{Name: "log-line-grown-by-concatenation", File: "protocols/bgp/server/bmp_router.go", Old: "\t\t\tfmt.Fprintf(logMsg, \" sysDescr.: %s\", string(tlv.Information))\n", New: "\t\t\tr.name += fmt.Sprintf(\" sysDescr.: %s\", string(tlv.Information))\n", Expect: "linear-accumulation"},
+			{Name: "receive-buffer-reserved-from-length-field", File: "protocols/bgp/server/bmp_receiver.go", Old: "\tbuffer.Write(header)\n\t_, err = io.CopyN(buffer, c, int64(l)-bmppkt.MinLen)", New: "\tbuffer.Write(header)\n\tbuffer.Grow(int(l) - bmppkt.MinLen)\n\t_, err = io.CopyN(buffer, c, int64(l)-bmppkt.MinLen)", Expect: "bounded-allocation"},
 			{Name: "sent-open-addpath-for-foreign-family", File: "protocols/bgp/server/bmp_router.go", Old: "\t\t\t\t\tif peerFamily == nil {\n\t\t\t\t\t\tcontinue\n\t\t\t\t\t}\n", New: "", Expect: "family-lookup-result-guarded"},
 			{Name: "framing-allocates-by-length-field", File: "protocols/bgp/server/bmp_receiver.go", Old: "\tbuffer := bytes.NewBuffer(make([]byte, 0, defaultBufferLen))", New: "\tbuffer := bytes.NewBuffer(make([]byte, 0, l))", Expect: "bounded-allocation"},
 			{Name: "stats-count-unchecked", File: "protocols/bmp/packet/stats_report.go", Old: "\tif int(sr.StatsCount) > buf.Len()/MinInformationTLVLen {", New: "\tif int(sr.StatsCount) < 0 {", Expect: "bounded-allocation"},
